@@ -297,3 +297,122 @@ def check_pad_semantic(project: Project, rep):
             status["crit"] = "refuted"
             return status
     return status
+
+
+def check_snap_semantic(project: Project, rep):
+    """AR-SNAP — re-sampling grid landscapes onto a common grid, decided on the constructor calls observed while `snap_pl` is
+    followed on two landscapes with independent symbolic grids and values: landscape k's row d becomes
+    np.interp(node g of linspace(start, stop, num_steps), landscape k's own grid, landscape k's own row d), the result carries
+    the requested grid and landscape k's degree; with the grid left out it is (min start, max stop, max num_steps)."""
+    from ..core.values import fresh, rows
+    AP = "persim.landscapes.approximate.PersLandscapeApprox"
+    fi = project.functions.get("persim.landscapes.tools.snap_pl")
+    if fi is None:
+        rep.unmodelled("AR-SNAP", None, None, "snap_pl not found")
+        return "unmodelled"
+    rep.analysed(fi)
+
+    def run(given):
+        def stub(I, bound, n):
+            return ObjV(AP, dict(bound))
+        I = Interp(project, Config(nonempty={("rows", "D0"), ("rows", "G0"), ("rows", "D1"), ("rows", "G1")},
+                                   finite_inputs={"V0", "V1"}, flags={"stub_ctor": {AP: stub}}))
+
+        def land(k):
+            d, g = fresh(), fresh()
+            return ObjV(AP, {"values": Arr([(rows(f"D{k}"), d), (rows(f"G{k}"), g)], sym.In(f"V{k}", ((d, 0), (g, 0)))),
+                             "start": Sc(sym.Sym(f"s{k}")), "stop": Sc(sym.Sym(f"e{k}")), "num_steps": Sc(sym.Sym(f"n{k}")),
+                             "hom_deg": Sc(sym.Sym(f"hd{k}")), "dgms": Seq([], "list"), "max_depth": Sc(sym.Sym(f"md{k}"))})
+        pls = Seq([land(0), land(1)], "list")
+        kw = {}
+        if given:
+            kw = {"start": Sc(sym.Sym("start")), "stop": Sc(sym.Sym("stop")), "num_steps": Sc(sym.Sym("n"))}
+        I.call_function(fi, [pls], kw, None)
+        return I
+
+    try:
+        I = run(True)
+    except Exception as ex:
+        rep.unmodelled("AR-SNAP", fi, fi.node, f"snap_pl could not be followed: {type(ex).__name__}: {ex}"[:200])
+        return "unmodelled"
+    cons = [ev for ev in I.log if ev["kind"] == "construct" and ev["cls"] == AP]
+    um = [u for u in I.unmodelled]
+    if len(cons) != 2 or um or I.lossy:
+        why = um[0]["tag"] if um else f"{len(cons)} landscapes built for 2 inputs"
+        if len(cons) != 2 and not um and not I.lossy:
+            rep.refuted("AR-SNAP", fi, fi.node, f"snap_pl builds {len(cons)} landscapes for 2 inputs")
+            return "refuted"
+        rep.unmodelled("AR-SNAP", fi, fi.node, f"snap_pl could not be followed ({why})")
+        return "unmodelled"
+    status = "ok"
+    for k, ev in enumerate(cons):
+        args, node = ev["args"], ev["node"]
+        for name, want in (("start", sym.Sym("start")), ("stop", sym.Sym("stop")), ("num_steps", sym.Sym("n")),
+                           ("hom_deg", sym.Sym(f"hd{k}"))):
+            v = args.get(name)
+            if isinstance(v, Sc) and v.e == want:
+                continue
+            got = sym.show(v.e)[:60] if isinstance(v, Sc) and v.e is not None else ("<default>" if v is None else type(v).__name__)
+            rep.refuted("AR-SNAP", fi, node, f"re-sampled landscape {k + 1} is built with {name} = {got} instead of {sym.show(want)}")
+            status = "refuted"
+        vals = args.get("values")
+        if not isinstance(vals, Arr) or vals.ndim != 2:
+            rep.unmodelled("AR-SNAP", fi, node, f"values of re-sampled landscape {k + 1} are not a 2-d array")
+            return "unmodelled"
+        (dsp, div), (gsp, giv) = vals.axes
+        e = vals.elem
+        if dsp.key != ("rows", f"D{k}") or not sym.equal(gsp.size, sym.Sym("n")):
+            rep.refuted("AR-SNAP", fi, node, f"re-sampled landscape {k + 1} has shape ({sym.show(dsp.size)[:40]}, "
+                                             f"{sym.show(gsp.size)[:40]}) instead of (its own depths, num_steps)")
+            status = "refuted"
+            continue
+        if not (e[0] == "opq" and e[1] == "interp" and len(e[2]) == 3):
+            rep.unmodelled("AR-SNAP", fi, node, f"a re-sampled value is {sym.show(e)[:100]}, not an interpolation")
+            return "unmodelled"
+        x, xp, fp = e[2]
+        grid = sym.add(sym.Sym("start"), sym.mul(sym.IV(giv), sym.div(sym.sub(sym.Sym("stop"), sym.Sym("start")),
+                                                                        sym.sub(sym.Sym("n"), sym.ONE))))
+        okx, wx = symeval.equivalent(x, grid, trials=20)
+        jv = sorted(sym.free_ivars(xp))
+        own = None
+        if len(jv) == 1:
+            own = sym.add(sym.Sym(f"s{k}"), sym.mul(sym.IV(jv[0]), sym.div(sym.sub(sym.Sym(f"e{k}"), sym.Sym(f"s{k}")),
+                                                                            sym.sub(sym.Sym(f"n{k}"), sym.ONE))))
+        okp, wp = symeval.equivalent(xp, own, trials=20) if own is not None else (False, "abscissae are not a grid")
+        okf = fp[0] == "in" and fp[1] == f"V{k}" and len(fp[2]) == 2 and isinstance(fp[2][0], tuple) and fp[2][0][0] == div \
+            and isinstance(fp[2][1], tuple)
+        if okx is True and okp is True and okf:
+            rep.discharged("AR-SNAP", fi, node, f"landscape {k + 1}: row d is np.interp(new grid, its own grid, its own row d)")
+        elif okx is None or okp is None:
+            rep.unmodelled("AR-SNAP", fi, node, f"cannot evaluate the interpolation arguments ({wx or wp})")
+            return "unmodelled"
+        else:
+            what = ("it is sampled at " + sym.show(x)[:80] + " instead of the nodes of the requested grid") if okx is not True else \
+                   ("the abscissae are " + sym.show(xp)[:80] + " instead of the landscape's own grid") if okp is not True else \
+                   ("the ordinates are " + sym.show(fp)[:60] + " instead of the landscape's own row d")
+            rep.refuted("AR-SNAP", fi, node, f"landscape {k + 1} is re-sampled wrongly: {what}", construct=f"{fi.qualname}: re-sampling")
+            status = "refuted"
+    # defaults
+    try:
+        I2 = run(False)
+        cons2 = [ev for ev in I2.log if ev["kind"] == "construct" and ev["cls"] == AP]
+    except Exception:
+        cons2 = []
+    if len(cons2) == 2:
+        want = {"start": sym.fn("min", sym.Sym("s0"), sym.Sym("s1")), "stop": sym.fn("max", sym.Sym("e0"), sym.Sym("e1")),
+                "num_steps": sym.fn("max", sym.Sym("n0"), sym.Sym("n1"))}
+        for name, w in want.items():
+            v = cons2[0]["args"].get(name)
+            if isinstance(v, Sc) and v.e is not None and not unmodelled_local(v.e):
+                ok, wit = symeval.equivalent(v.e, w, trials=30)
+                if ok is True:
+                    rep.discharged("AR-SNAP", fi, cons2[0]["node"], f"default `{name}` is the tightest common value "
+                                                                    f"({sym.show(w)})")
+                elif ok is False:
+                    rep.refuted("AR-SNAP", fi, cons2[0]["node"], f"default `{name}` is {sym.show(v.e)[:80]}, not {sym.show(w)}")
+                    status = "refuted"
+    return status
+
+
+def unmodelled_local(e):
+    return [x[1] for x in sym.walk(e) if x[0] == "opq" and x[1].startswith("unmodelled")]
